@@ -385,7 +385,7 @@ Definition check_run (l0 l1 : list (N * key)) (nu : N) (gs : list goal) (impl_lo
    characters (Coq elaborates a string literal much faster than a list literal).  A number v < 90 is the
    character with code 35+v; larger numbers are "}" followed by two base-90 digits.  The token stream is
      nu  n0 (uid key)*n0  n1 (uid key)*n1  ng (kind p key)*ng  <encoded log of the implementation>
-   with key 0 = variable, k+1 = constant k; the log is compared in encoded form (enc_log). *)
+   with key 0 = variable, k+1 = constant k; the log is compared in encoded form (enc_log: one token 4*k+tag per event plus its payload). *)
 From Coq Require String Ascii.
 Import String Ascii.
 Fixpoint bytes (s : string) : list N :=
@@ -435,18 +435,19 @@ Fixpoint take_goals (n : nat) (l : list N) : list goal * list N :=
       end
   end.
 
-Definition enc_obs (o : obs) : list N :=
+(* one event = the goal index and the kind of observation packed into one token (4*k + tag), then the payload *)
+Definition enc_ev (k : N) (o : obs) : list N :=
   match o with
-  | OVal None => [0]
-  | OVal (Some u) => [1; u]
-  | ONone => [2]
-  | OList us => 3 :: N.of_nat (List.length us) :: us
+  | OVal None => [4 * k]
+  | OVal (Some u) => [4 * k + 1; u]
+  | ONone => [4 * k + 2]
+  | OList us => (4 * k + 3) :: N.of_nat (List.length us) :: us
   end.
 
 Fixpoint enc_log (l : list (N * obs)) : list N :=
   match l with
   | [] => []
-  | (k, o) :: r => k :: enc_obs o ++ enc_log r
+  | (k, o) :: r => enc_ev k o ++ enc_log r
   end.
 
 Definition check_s (s : string) : bool :=
